@@ -183,15 +183,29 @@ _SPLICE = [b"(", b")", b"{", b"}", b"[", b"]", b";", b",", b"@", b"@outer", b"@i
            b"#define X", b"\n#if 1\n", b"\n#endif\n", b"\n#else\n", b"sizeof", b"...", b"::", b"->", b"++", b"<", b">", b"<<", b"\"s\"", b"'c'"]
 
 
+_NOT_FN = {b"for", b"if", b"while", b"switch", b"sizeof", b"return", b"else", b"do"}
+_P_ATTR = [b"", b"", b"@restrict ", b"@restrict ", b"@dim(2,2) ", b"@dimOrder(1,0) ", b"@shared ", b"@exclusive ", b"@atomic ", b"@foo ",
+           b"@restrict @dim(2,2) "]
+_P_QUAL = [b"", b"", b"const ", b"volatile ", b"const volatile "]
+_P_TYPE = [b"int", b"float", b"double", b"long", b"char", b"unsigned int", b"float4", b"bool", b"void", b"size_t", b"struct S"]
+_P_PTR = [b" ", b" ", b" *", b" **", b" &", b" * const ", b" *@restrict "]
+_P_DIMS = [b"", b"", b"[4]", b"[]", b"[2][3]", b"[n]", b"[0]", b"[4] @dim(2,2)"]
+
+
+def gen_param(rnd):
+    return (rnd.choice(_P_ATTR) + rnd.choice(_P_QUAL) + rnd.choice(_P_TYPE) + rnd.choice(_P_PTR) + b"zz%d" % rnd.randrange(3) +
+            rnd.choice(_P_DIMS))
+
+
 def mutate_tokens(rnd, text):
     """1-3 token-level edits of `text` (bytes): delete / duplicate / swap / replace a token, drop or add a bracket, change or
-    move an attribute, truncate, splice a piece of another position"""
+    move an attribute, truncate, splice a piece of another position, insert a grammar-generated parameter declaration"""
     toks = [m.group(0) for m in _TOKEN.finditer(text)]
     idx = [i for i, t in enumerate(toks) if not t.isspace()]
     for _ in range(rnd.choice([1, 1, 1, 2, 2, 3])):
         if len(idx) < 4:
             break
-        op = rnd.randrange(12)
+        op = rnd.randrange(13)
         i = rnd.choice(idx)
         if op == 0:
             toks[i] = b""
@@ -237,6 +251,16 @@ def mutate_tokens(rnd, text):
                     piece = [toks[k], toks[nxt[0]]]
                     toks[k] = toks[nxt[0]] = b""
                     toks.insert(rnd.choice(idx), b" ".join(piece) + b" ")
+        elif op == 12:
+            # a grammar-generated parameter declaration (attribute x qualifier x type x pointer/reference x array suffix) put at the
+            # head of a parenthesised list that follows an identifier: function and kernel headers (and, harmlessly, calls)
+            opens = [k for n, k in enumerate(idx) if toks[k] == b"(" and n > 0 and re.match(rb"[A-Za-z_]\w*$", toks[idx[n - 1]])
+                     and toks[idx[n - 1]] not in _NOT_FN]
+            if opens:
+                k = rnd.choice(opens)
+                nxt = [q for q in idx if q > k]
+                sep = b"" if (nxt and toks[nxt[0]] == b")") else b", "
+                toks[k] = b"(" + gen_param(rnd) + sep
         else:
             toks[i] = rnd.choice([b"0", b"-1", b"n", b"", b"()", b"(,)", b"[]", b"{}", b"@", b"1.5", b"x", b"0", b"*", b"\"", b"'", b"/*"])
         idx = [q for q, t in enumerate(toks) if t and not t.isspace()]
